@@ -44,7 +44,7 @@ example :
 there; afterwards a schema node has an instance iff it had one or is a node that gets implicit data — a non-presence container, a
 leaf with a default, a leaf-list with defaults, not state data under `LYD_IMPLICIT_NO_STATE` (RFC 7950 §7.5.1, §7.6.1, §7.7.2) — and
 every node that was not there before is such an implicit node: flagged default only, without children.  (Through choices: the law
-`implicit` of tools/checks/c07.py compares libyang with `rfcComplete`; findings F65, F66.) -/
+`implicit` of tools/checks/c07.py compares libyang with `rfcComplete`; findings F180, F188.) -/
 theorem implicit_exact (S : Schema) (o : VOpts) (cx : Cx) (ks : List STree) (sibs : List DNode) :
     (∀ x ∈ sibs, x ∈ (implNodes S o cx ks sibs).1) ∧
     (∀ sid, hasInst (implNodes S o cx ks sibs).1 sid = (hasInst sibs sid || ks.any (fun k => wantsImplicit o k && k.sid == sid))) ∧
@@ -266,12 +266,12 @@ example :
 
 /-! ## not proved
 
--- OPEN: `validate_idempotent` for schemas with `choice` / `case` (the defective variants F65 / F66 violate it: a second
+-- OPEN: `validate_idempotent` for schemas with `choice` / `case` (the defective variants F180 / F188 violate it: a second
 -- validation completes an outer case / removes an outer default case).  Law `idempotent` of tools/checks/c07.py on the
 -- implementation, model correspondence through `hist`.
 -- OPEN: `valdiff_exact` (applying the returned diff to the input gives the output; the diff is empty iff nothing changed).
 -- The model composes `Valid.ValDiff.valDiff` with the `diff` component's `apply`; laws `valdiff-apply` / `valdiff-eq`
--- evaluate it on the implementation; findings F62, F63, F64 are its counterexamples in the code.
+-- evaluate it on the implementation; findings F177, F178, F179 are its counterexamples in the code.
 -- OPEN: `np_cont_dflt` for the validation step itself (`validate` keeps `npInvL`: it removes and creates default nodes only,
 -- `npSet` in `lyd_validate_final_r`); law `dflt-flag` checks the flags after every step of every history.
 -- OPEN: `implicit_exact` through choices (default case chosen iff no case has data): `dflt_flag_sound` gives soundness
